@@ -1,5 +1,333 @@
-/- C03 — property theorems only. -/
+/-
+C03 — reprojection planning never drops a needed pixel.
+
+Property theorems only (helper lemmas: `Lemmas/C03.lean`).  Conventions: an axis transform is
+`x_src = s · x_dst + t`; pixel `d` of the destination has centre `d + ½`; the source pixel a
+coordinate `x` falls in is `⌊x⌋`; "inside the source image" is `0 ≤ x < Ns`.
+-/
 import OdcGeo.Model.C03
+import OdcGeo.Lemmas.C03
+import OdcGeo.Props.C17
+import Mathlib.Tactic.Linarith
+import Mathlib.Tactic.Ring
+import Mathlib.Algebra.Order.Field.Rat
 namespace OdcGeo.C03
+open OdcGeo.C17
+
+/-! ## one axis: `compute_axis_overlap` -/
+
+/-- The only failure is the `assert s > 0` for a zero scale. -/
+theorem axis_error_iff (Ns Nd : Int) (s t : Rat) :
+    (∃ e, axisOverlap Ns Nd s t = .error e) ↔ s = 0 := by
+  unfold axisOverlap
+  constructor
+  · rintro ⟨e, h⟩
+    by_cases h1 : s < 0
+    · simp [h1] at h
+    · by_cases h2 : s > 0
+      · simp [h1, h2] at h
+      · exact le_antisymm (not_lt.mp h2) (not_lt.mp h1)
+  · rintro rfl
+    exact ⟨.assertion, by simp⟩
+
+/-- Both regions lie within their images and are well formed, for every scale of either sign. -/
+theorem axis_within (Ns Nd : Int) (s t : Rat) (hNs : 0 ≤ Ns) (hNd : 0 ≤ Nd) (r : NSlice × NSlice)
+    (h : axisOverlap Ns Nd s t = .ok r) :
+    (0 ≤ r.1.start ∧ r.1.start ≤ r.1.stop ∧ r.1.stop ≤ Ns) ∧
+    (0 ≤ r.2.start ∧ r.2.start ≤ r.2.stop ∧ r.2.stop ≤ Nd) := by
+  unfold axisOverlap at h
+  by_cases h1 : s < 0
+  · simp only [h1, if_true, Except.ok.injEq] at h
+    have := axisPos_within Ns Nd (-s) ((Ns : Rat) - t) hNs hNd (by linarith)
+    subst h
+    simp only at this ⊢
+    omega
+  · by_cases h2 : s > 0
+    · simp only [h1, h2, if_true, if_false, Except.ok.injEq] at h
+      subst h
+      exact axisPos_within Ns Nd s t hNs hNd h2
+    · simp [h1, h2] at h
+
+/-- **Destination coverage.**  Every destination pixel whose centre maps inside the source
+image lies in the destination region (mirrored axes included). -/
+theorem axis_dst_covers (Ns Nd : Int) (s t : Rat) (r : NSlice × NSlice)
+    (h : axisOverlap Ns Nd s t = .ok r) (d : Int) (hd0 : 0 ≤ d) (hdN : d < Nd)
+    (hx0 : 0 ≤ s * ((d : Rat) + 1 / 2) + t) (hxN : s * ((d : Rat) + 1 / 2) + t < Ns) :
+    r.2.start ≤ d ∧ d < r.2.stop := by
+  have hu0 : (0 : Rat) ≤ (d : Rat) + 1 / 2 := by
+    have : (0 : Rat) ≤ d := by exact_mod_cast hd0
+    linarith
+  have huN : (d : Rat) + 1 / 2 ≤ Nd := by
+    have : (d : Rat) + 1 ≤ Nd := by exact_mod_cast hdN
+    linarith
+  have fin : ∀ p : NSlice, (p.start : Rat) ≤ (d : Rat) + 1 / 2 → (d : Rat) + 1 / 2 ≤ p.stop →
+      p.start ≤ d ∧ d < p.stop := by
+    intro p h1 h2
+    constructor
+    · have : (p.start : Rat) < (d : Rat) + 1 := by linarith
+      have : p.start < d + 1 := by exact_mod_cast this
+      omega
+    · have : (d : Rat) < p.stop := by linarith
+      exact_mod_cast this
+  unfold axisOverlap at h
+  by_cases h1 : s < 0
+  · simp only [h1, if_true, Except.ok.injEq] at h
+    have c := axisPos_covers Ns Nd (-s) ((Ns : Rat) - t) ((d : Rat) + 1 / 2) (by linarith) hu0 huN
+      (by linarith) (by linarith)
+    subst h
+    exact fin _ c.1.1 c.1.2
+  · by_cases h2 : s > 0
+    · simp only [h1, h2, if_true, if_false, Except.ok.injEq] at h
+      have c := axisPos_covers Ns Nd s t ((d : Rat) + 1 / 2) h2 hu0 huN hx0 (le_of_lt hxN)
+      subst h
+      exact fin _ c.1.1 c.1.2
+    · simp [h1, h2] at h
+
+/-- **Source coverage.**  The source pixel `⌊s(d+½)+t⌋` that such a destination pixel reads
+lies in the source region (mirrored axes included: the region is mapped back from the
+flipped image). -/
+theorem axis_src_covers (Ns Nd : Int) (s t : Rat) (r : NSlice × NSlice)
+    (h : axisOverlap Ns Nd s t = .ok r) (d : Int) (hd0 : 0 ≤ d) (hdN : d < Nd)
+    (hx0 : 0 ≤ s * ((d : Rat) + 1 / 2) + t) (hxN : s * ((d : Rat) + 1 / 2) + t < Ns) :
+    r.1.start ≤ (s * ((d : Rat) + 1 / 2) + t).floor ∧ (s * ((d : Rat) + 1 / 2) + t).floor < r.1.stop := by
+  have hu0 : (0 : Rat) < (d : Rat) + 1 / 2 := by
+    have : (0 : Rat) ≤ d := by exact_mod_cast hd0
+    linarith
+  have huN : (d : Rat) + 1 / 2 < Nd := by
+    have : (d : Rat) + 1 ≤ Nd := by exact_mod_cast hdN
+    linarith
+  generalize hx : s * ((d : Rat) + 1 / 2) + t = x at *
+  have f1 := Rat.floor_le x
+  have f2 : x < (x.floor : Rat) + 1 := by
+    have := Rat.lt_floor_add_one x; push_cast at this; exact this
+  unfold axisOverlap at h
+  by_cases h1 : s < 0
+  · simp only [h1, if_true, Except.ok.injEq] at h
+    have hy : -s * ((d : Rat) + 1 / 2) + ((Ns : Rat) - t) = (Ns : Rat) - x := by rw [← hx]; ring
+    have c := axisPos_covers Ns Nd (-s) ((Ns : Rat) - t) ((d : Rat) + 1 / 2) (by linarith) (le_of_lt hu0)
+      (le_of_lt huN) (by rw [hy]; linarith) (by rw [hy]; linarith)
+    rw [hy] at c
+    have c1 := c.2.2.1 hu0 (by linarith)
+    have c2 := c.2.1.2
+    subst h
+    simp only
+    constructor
+    · have : ((Ns - (axisPos Ns Nd (-s) ((Ns : Rat) - t)).1.stop : Int) : Rat) < (x.floor : Rat) + 1 := by
+        push_cast; linarith
+      have : Ns - (axisPos Ns Nd (-s) ((Ns : Rat) - t)).1.stop < x.floor + 1 := by exact_mod_cast this
+      omega
+    · have : (x.floor : Rat) < ((Ns - (axisPos Ns Nd (-s) ((Ns : Rat) - t)).1.start : Int) : Rat) := by
+        push_cast; linarith
+      exact_mod_cast this
+  · by_cases h2 : s > 0
+    · simp only [h1, h2, if_true, if_false, Except.ok.injEq] at h
+      have c := axisPos_covers Ns Nd s t ((d : Rat) + 1 / 2) h2 (le_of_lt hu0) (le_of_lt huN)
+        (by rw [hx]; exact hx0) (by rw [hx]; exact le_of_lt hxN)
+      rw [hx] at c
+      have c1 := c.2.1.1
+      have c2 := c.2.2.2 huN hxN
+      subst h
+      constructor
+      · rw [Rat.le_floor_iff]; exact c1
+      · have : (x.floor : Rat) < ((axisPos Ns Nd s t).1.stop : Rat) := by linarith
+        exact_mod_cast this
+    · simp [h1, h2] at h
+
+/-- **Disjoint ⇒ empty.**  When the image `[min(t, Nd·s+t), max(t, Nd·s+t)]` of the destination
+axis does not overlap `[0, Ns]` (touching allowed), both regions are empty. -/
+theorem axis_disjoint_empty (Ns Nd : Int) (s t : Rat) (hNs : 0 ≤ Ns) (hNd : 0 ≤ Nd) (r : NSlice × NSlice)
+    (h : axisOverlap Ns Nd s t = .ok r)
+    (hsep : max t ((Nd : Rat) * s + t) ≤ 0 ∨ (Ns : Rat) ≤ min t ((Nd : Rat) * s + t)) :
+    r.1.stop - r.1.start = 0 ∧ r.2.stop - r.2.start = 0 := by
+  have hNdq : (0 : Rat) ≤ Nd := by exact_mod_cast hNd
+  unfold axisOverlap at h
+  by_cases h1 : s < 0
+  · simp only [h1, if_true, Except.ok.injEq] at h
+    have hNds : (Nd : Rat) * s ≤ 0 := mul_nonpos_of_nonneg_of_nonpos hNdq (le_of_lt h1)
+    have c := axisPos_disjoint Ns Nd (-s) ((Ns : Rat) - t) hNs hNd (by linarith) (by
+      rcases hsep with h' | h'
+      · right
+        have := le_trans (le_max_left _ _) h'
+        linarith
+      · left
+        have := le_trans h' (min_le_right _ _)
+        linarith)
+    subst h
+    simp only at c ⊢
+    omega
+  · by_cases h2 : s > 0
+    · simp only [h1, h2, if_true, if_false, Except.ok.injEq] at h
+      have c := axisPos_disjoint Ns Nd s t hNs hNd h2 (by
+        rcases hsep with h' | h'
+        · left; exact le_trans (le_max_right _ _) h'
+        · right; exact le_trans h' (min_le_left _ _))
+      subst h
+      simp only at c ⊢
+      omega
+    · simp [h1, h2] at h
+
+
+/-! ## two axes: `box_overlap` (scale + translation transforms) -/
+
+/-- `box_overlap` fails only for a zero scale on some axis. -/
+theorem box_error_iff (src dst : Shape) (ST : Aff) :
+    (∃ e, boxOverlap src dst ST = .error e) ↔ (ST.a = 0 ∨ ST.e = 0) := by
+  rw [← axis_error_iff src.2 dst.2 ST.a ST.c, ← axis_error_iff src.1 dst.1 ST.e ST.f]
+  unfold boxOverlap
+  cases hy : axisOverlap src.1 dst.1 ST.e ST.f <;> cases hx : axisOverlap src.2 dst.2 ST.a ST.c <;> simp
+
+/-- Both regions of `box_overlap` lie within their images and are well formed. -/
+theorem box_within (src dst : Shape) (ST : Aff) (hs : 0 ≤ src.1 ∧ 0 ≤ src.2) (hd : 0 ≤ dst.1 ∧ 0 ≤ dst.2)
+    (r : ROI × ROI) (h : boxOverlap src dst ST = .ok r) :
+    ((0 ≤ r.1.1.start ∧ r.1.1.start ≤ r.1.1.stop ∧ r.1.1.stop ≤ src.1) ∧
+     (0 ≤ r.1.2.start ∧ r.1.2.start ≤ r.1.2.stop ∧ r.1.2.stop ≤ src.2)) ∧
+    ((0 ≤ r.2.1.start ∧ r.2.1.start ≤ r.2.1.stop ∧ r.2.1.stop ≤ dst.1) ∧
+     (0 ≤ r.2.2.start ∧ r.2.2.start ≤ r.2.2.stop ∧ r.2.2.stop ≤ dst.2)) := by
+  obtain ⟨yy, xx, hy, hx, rfl⟩ := boxOverlap_ok h
+  have wy := axis_within _ _ _ _ hs.1 hd.1 yy hy
+  have wx := axis_within _ _ _ _ hs.2 hd.2 xx hx
+  exact ⟨⟨wy.1, wx.1⟩, ⟨wy.2, wx.2⟩⟩
+
+/-- **2-D coverage for scale+translation transforms**: a destination pixel `(dy, dx)` whose centre
+maps (through `ST`, which has no rotation/shear terms) inside the source image lies in the
+destination region and the source pixel it maps to lies in the source region. -/
+theorem box_covers (src dst : Shape) (ST : Aff) (hb : ST.b = 0) (hd' : ST.d = 0)
+    (r : ROI × ROI) (h : boxOverlap src dst ST = .ok r) (dy dx : Int)
+    (hdy : 0 ≤ dy ∧ dy < dst.1) (hdx : 0 ≤ dx ∧ dx < dst.2)
+    (hqx : 0 ≤ (ST.apply ((dx : Rat) + 1 / 2, (dy : Rat) + 1 / 2)).1 ∧
+           (ST.apply ((dx : Rat) + 1 / 2, (dy : Rat) + 1 / 2)).1 < src.2)
+    (hqy : 0 ≤ (ST.apply ((dx : Rat) + 1 / 2, (dy : Rat) + 1 / 2)).2 ∧
+           (ST.apply ((dx : Rat) + 1 / 2, (dy : Rat) + 1 / 2)).2 < src.1) :
+    (r.2.1.start ≤ dy ∧ dy < r.2.1.stop) ∧ (r.2.2.start ≤ dx ∧ dx < r.2.2.stop) ∧
+    (r.1.2.start ≤ (ST.apply ((dx : Rat) + 1 / 2, (dy : Rat) + 1 / 2)).1.floor ∧
+      (ST.apply ((dx : Rat) + 1 / 2, (dy : Rat) + 1 / 2)).1.floor < r.1.2.stop) ∧
+    (r.1.1.start ≤ (ST.apply ((dx : Rat) + 1 / 2, (dy : Rat) + 1 / 2)).2.floor ∧
+      (ST.apply ((dx : Rat) + 1 / 2, (dy : Rat) + 1 / 2)).2.floor < r.1.1.stop) := by
+  obtain ⟨yy, xx, hy, hx, rfl⟩ := boxOverlap_ok h
+  have ex : (ST.apply ((dx : Rat) + 1 / 2, (dy : Rat) + 1 / 2)).1 = ST.a * ((dx : Rat) + 1 / 2) + ST.c := by
+    simp [Aff.apply, hb]
+  have ey : (ST.apply ((dx : Rat) + 1 / 2, (dy : Rat) + 1 / 2)).2 = ST.e * ((dy : Rat) + 1 / 2) + ST.f := by
+    simp [Aff.apply, hd']
+  rw [ex] at hqx ⊢
+  rw [ey] at hqy ⊢
+  exact ⟨axis_dst_covers _ _ _ _ yy hy dy hdy.1 hdy.2 hqy.1 hqy.2,
+         axis_dst_covers _ _ _ _ xx hx dx hdx.1 hdx.2 hqx.1 hqx.2,
+         axis_src_covers _ _ _ _ xx hx dx hdx.1 hdx.2 hqx.1 hqx.2,
+         axis_src_covers _ _ _ _ yy hy dy hdy.1 hdy.2 hqy.1 hqy.2⟩
+
+/-! ## `_relative_rois`: sampled boundary, padding, alignment, clipping -/
+
+/-- Both regions of `_relative_rois` lie within their images, whatever the point transform
+(non-finite images, arbitrary padding / alignment included). -/
+theorem relative_within (src dst : Shape) (back fwd : PtTr) (pps : Nat) (pad : Int) (al : Option Int)
+    (hs : 0 ≤ src.1 ∧ 0 ≤ src.2) (hd : 0 ≤ dst.1 ∧ 0 ≤ dst.2) :
+    let r := relativeRois src dst back fwd pps pad al
+    ((0 ≤ r.1.1.start ∧ r.1.1.stop ≤ src.1) ∧ (0 ≤ r.1.2.start ∧ r.1.2.stop ≤ src.2)) ∧
+    ((0 ≤ r.2.1.start ∧ r.2.1.stop ≤ dst.1) ∧ (0 ≤ r.2.2.start ∧ r.2.2.stop ≤ dst.2)) := by
+  have w1 := from_points_within_image ((roiBoundary (⟨0, dst.1⟩, ⟨0, dst.2⟩) pps).map back) src.1 src.2 pad al hs.1 hs.2
+  simp only [relativeRois]
+  split_ifs with c1 c2 c3
+  · simp [emptyROI, hs.1, hs.2, hd.1, hd.2]
+  · simp [emptyROI, hs.1, hs.2]
+    have := from_points_within_image
+      ((roiBoundary emptyROI pps).map fwd) dst.1 dst.2 0 none hd.1 hd.2
+    simp only [emptyROI] at this
+    omega
+  · simp only [emptyROI]
+    simp only at w1
+    omega
+  · have w2 := from_points_within_image
+      ((roiBoundary (fromPoints ((roiBoundary (⟨0, dst.1⟩, ⟨0, dst.2⟩) pps).map back) src.1 src.2 pad al) pps).map fwd)
+      dst.1 dst.2 0 none hd.1 hd.2
+    simp only at w1 w2 ⊢
+    omega
+
+
+/-- **Coverage for an abstract (possibly non-linear) point transform — partial.**
+Full statement wanted: for the real cross-CRS transform every destination pixel whose centre
+maps inside the source lies in `roi_dst` and its source location in `roi_src`.  Proved here
+under the two explicit envelope hypotheses `henvS` / `henvD` (the image of the pixel centre lies
+in the envelope of the sampled boundary images grown by `padding`; the centre lies in the
+envelope of the forward images of the source-region boundary samples).  These are exactly what
+the curvature of a real projection can break; they are *proved* for affine maps in
+`linear_covers` and only *sampled* (harness oracle, pyproj) across CRSs. -/
+theorem nonlinear_covers_partial (src dst : Shape) (back fwd : PtTr) (pps : Nat) (pad : Int) (al : Option Int)
+    (hal : ∀ a, al = some a → 0 < a) (dy dx : Int) (hdy : 0 ≤ dy ∧ dy < dst.1) (hdx : 0 ≤ dx ∧ dx < dst.2)
+    (q : Rat × Rat) (hqx : 0 ≤ q.1 ∧ q.1 < src.2) (hqy : 0 ≤ q.2 ∧ q.2 < src.1)
+    (henvS : InEnvStrict (finitePts (srcSamples dst back pps)) q pad)
+    (henvD : InEnvClosed (finitePts (dstSamples (relativeRois src dst back fwd pps pad al).1 fwd pps))
+      ((dx : Rat) + 1 / 2, (dy : Rat) + 1 / 2)) :
+    let r := relativeRois src dst back fwd pps pad al
+    (r.2.1.start ≤ dy ∧ dy < r.2.1.stop) ∧ (r.2.2.start ≤ dx ∧ dx < r.2.2.stop) ∧
+    (r.1.2.start ≤ q.1.floor ∧ q.1.floor < r.1.2.stop) ∧ (r.1.1.start ≤ q.2.floor ∧ q.2.floor < r.1.1.stop) := by
+  have hs := relativeRois_src src dst back fwd pps pad al q henvS hqx hqy hal
+  obtain ⟨_, e2, m1, m2⟩ := hs
+  have hdxq : (0 : Rat) ≤ dx ∧ (dx : Rat) + 1 ≤ dst.2 := ⟨by exact_mod_cast hdx.1, by exact_mod_cast hdx.2⟩
+  have hdyq : (0 : Rat) ≤ dy ∧ (dy : Rat) + 1 ≤ dst.1 := ⟨by exact_mod_cast hdy.1, by exact_mod_cast hdy.2⟩
+  have c := fromPoints_mem_closed _ dst.1 dst.2 ((dx : Rat) + 1 / 2, (dy : Rat) + 1 / 2) henvD
+    ⟨by simp only; linarith, by simp only; linarith⟩ ⟨by simp only; linarith, by simp only; linarith⟩
+  simp only at c ⊢
+  rw [← e2] at c
+  have fin : ∀ (p : NSlice) (d : Int), (p.start : Rat) ≤ (d : Rat) + 1 / 2 → (d : Rat) + 1 / 2 ≤ p.stop →
+      p.start ≤ d ∧ d < p.stop := by
+    intro p d h1 h2
+    constructor
+    · have : (p.start : Rat) < (d : Rat) + 1 := by linarith
+      have : p.start < d + 1 := by exact_mod_cast this
+      omega
+    · have : (d : Rat) < p.stop := by linarith
+      exact_mod_cast this
+  exact ⟨fin _ _ c.2.1 c.2.2, fin _ _ c.1.1 c.1.2, m1, m2⟩
+
+/-- **Coverage on the sampled-corner path for every invertible affine map** (rotation, shear,
+mirroring, any scale), any `padding ≥ 0`, any alignment: a destination pixel whose centre maps
+inside the source image lies in the destination region, and the source pixel it maps to lies
+in the source region.  `fwd` is the inverse of `A` (what `tr` / `tr.back` are in the code). -/
+theorem linear_covers (src dst : Shape) (A fwd : Aff) (hdet : A.det ≠ 0)
+    (hinv : ∀ p, fwd.apply (A.apply p) = p) (pad : Int) (hpad : 0 ≤ pad) (al : Option Int)
+    (hal : ∀ a, al = some a → 0 < a) (dy dx : Int) (hdy : 0 ≤ dy ∧ dy < dst.1) (hdx : 0 ≤ dx ∧ dx < dst.2)
+    (hqx : 0 ≤ (A.apply ((dx : Rat) + 1 / 2, (dy : Rat) + 1 / 2)).1 ∧
+           (A.apply ((dx : Rat) + 1 / 2, (dy : Rat) + 1 / 2)).1 < src.2)
+    (hqy : 0 ≤ (A.apply ((dx : Rat) + 1 / 2, (dy : Rat) + 1 / 2)).2 ∧
+           (A.apply ((dx : Rat) + 1 / 2, (dy : Rat) + 1 / 2)).2 < src.1) :
+    let r := relativeRois src dst (linTr A) (linTr fwd) 2 pad al
+    (r.2.1.start ≤ dy ∧ dy < r.2.1.stop) ∧ (r.2.2.start ≤ dx ∧ dx < r.2.2.stop) ∧
+    (r.1.2.start ≤ (A.apply ((dx : Rat) + 1 / 2, (dy : Rat) + 1 / 2)).1.floor ∧
+      (A.apply ((dx : Rat) + 1 / 2, (dy : Rat) + 1 / 2)).1.floor < r.1.2.stop) ∧
+    (r.1.1.start ≤ (A.apply ((dx : Rat) + 1 / 2, (dy : Rat) + 1 / 2)).2.floor ∧
+      (A.apply ((dx : Rat) + 1 / 2, (dy : Rat) + 1 / 2)).2.floor < r.1.1.stop) := by
+  have hdxq : (0 : Rat) ≤ dx ∧ (dx : Rat) + 1 ≤ dst.2 := ⟨by exact_mod_cast hdx.1, by exact_mod_cast hdx.2⟩
+  have hdyq : (0 : Rat) ≤ dy ∧ (dy : Rat) + 1 ≤ dst.1 := ⟨by exact_mod_cast hdy.1, by exact_mod_cast hdy.2⟩
+  generalize hc : ((dx : Rat) + 1 / 2, (dy : Rat) + 1 / 2) = c at *
+  have hc1 : c.1 = (dx : Rat) + 1 / 2 := by rw [← hc]
+  have hc2 : c.2 = (dy : Rat) + 1 / 2 := by rw [← hc]
+  have henvS : InEnvStrict (finitePts (srcSamples dst (linTr A) 2)) (A.apply c) pad := by
+    apply inEnvStrict_of_interior A hdet (⟨0, dst.1⟩, ⟨0, dst.2⟩) c pad hpad
+    · simp only; push_cast; constructor <;> linarith
+    · simp only; push_cast; constructor <;> linarith
+  have hs := relativeRois_src src dst (linTr A) (linTr fwd) 2 pad al (A.apply c) henvS hqx hqy hal
+  obtain ⟨_, _, m1, m2⟩ := hs
+  have henvD : InEnvClosed (finitePts (dstSamples (relativeRois src dst (linTr A) (linTr fwd) 2 pad al).1 (linTr fwd) 2)) c := by
+    have := inEnvClosed_of_mem fwd (relativeRois src dst (linTr A) (linTr fwd) 2 pad al).1 (A.apply c) ?_ ?_
+    · rw [hinv] at this; exact this
+    · have f1 := Rat.floor_le (A.apply c).1
+      have f2 : (A.apply c).1 < ((A.apply c).1.floor : Rat) + 1 := by
+        have := Rat.lt_floor_add_one (A.apply c).1; push_cast at this; exact this
+      have a1 : (((relativeRois src dst (linTr A) (linTr fwd) 2 pad al).1.2.start : Int) : Rat) ≤ ((A.apply c).1.floor : Rat) := by
+        exact_mod_cast m1.1
+      have a2 : ((A.apply c).1.floor : Rat) + 1 ≤ (((relativeRois src dst (linTr A) (linTr fwd) 2 pad al).1.2.stop : Int) : Rat) := by
+        exact_mod_cast m1.2
+      constructor <;> linarith
+    · have f1 := Rat.floor_le (A.apply c).2
+      have f2 : (A.apply c).2 < ((A.apply c).2.floor : Rat) + 1 := by
+        have := Rat.lt_floor_add_one (A.apply c).2; push_cast at this; exact this
+      have a1 : (((relativeRois src dst (linTr A) (linTr fwd) 2 pad al).1.1.start : Int) : Rat) ≤ ((A.apply c).2.floor : Rat) := by
+        exact_mod_cast m2.1
+      have a2 : ((A.apply c).2.floor : Rat) + 1 ≤ (((relativeRois src dst (linTr A) (linTr fwd) 2 pad al).1.1.stop : Int) : Rat) := by
+        exact_mod_cast m2.2
+      constructor <;> linarith
+  rw [← hc] at henvD
+  have := nonlinear_covers_partial src dst (linTr A) (linTr fwd) 2 pad al hal dy dx hdy hdx (A.apply c) hqx hqy henvS henvD
+  exact this
 
 end OdcGeo.C03
